@@ -139,6 +139,10 @@ def stepLine (d : D) (line : String) : D × String :=
       match float? e, float? de, n.toNat? with
       | some e, some de, some n => (d, floatHex (meshSize e de n))
       | _, _, _ => bad
+    | "safel" :: ea :: ee :: rest =>
+      match float? ea, float? ee, takeList? float? rest with
+      | some ea, some ee, some (each, []) => (d, floatHex (safeDomainSize ea each ee))
+      | _, _, _ => bad
     | ["domain", l, e, de, n] =>
       match float? l, float? e, float? de, n.toNat? with
       | some l, some e, some de, some n => (d, domOut (getDomain tol8 l e de n))
